@@ -1,5 +1,5 @@
 (* C06 proofs. *)
-From Coq Require Import List NArith Bool Lia.
+From Coq Require Import List NArith Bool Lia PeanoNat.
 Import ListNotations.
 From SygmaV Require Import Model.C06.
 Local Open Scope N_scope.
@@ -172,9 +172,14 @@ Qed.
 
 Lemma msg_eqb_eq : forall a b, msg_eqb a b = true <-> a = b.
 Proof.
-  intros [a1 a2] [b1 b2]. unfold msg_eqb. cbn [fst snd].
-  rewrite andb_true_iff, !N.eqb_eq. split; [intros [-> ->]; reflexivity | intros H; injection H; auto].
+  intros [a1 [a2 a3]] [b1 [b2 b3]]. unfold msg_eqb, dest, nonce, content. cbn [fst snd].
+  rewrite !andb_true_iff, !N.eqb_eq. split.
+  - intros [[-> ->] ->]. reflexivity.
+  - intros H. injection H. auto.
 Qed.
+
+Lemma msg_eqb_refl : forall a, msg_eqb a a = true.
+Proof. intros a. now apply msg_eqb_eq. Qed.
 
 Lemma mem_In : forall m l, mem m l = true <-> In m l.
 Proof.
@@ -182,42 +187,84 @@ Proof.
   rewrite orb_true_iff, msg_eqb_eq, IH. split; intros [H|H]; auto.
 Qed.
 
+(* occurrences: each well-formed deposit its own message *)
+Lemma count_In : forall m l, (1 <= count m l)%nat <-> In m l.
+Proof.
+  intros m l. induction l as [|x r IH]; cbn [count In]; [split; [lia | tauto]|].
+  destruct (msg_eqb m x) eqn:E.
+  - apply msg_eqb_eq in E. subst x. split; [now left | lia].
+  - rewrite IH. split; [now right|]. intros [Hx|Hr]; [|exact Hr].
+    subst x. rewrite msg_eqb_refl in E. discriminate.
+Qed.
+
+Lemma Subseq_count : forall m l l', Subseq l l' -> (count m l <= count m l')%nat.
+Proof.
+  intros m l l' H. induction H as [l|l x l' H IH|x l l' H IH]; cbn [count].
+  - lia.
+  - destruct (msg_eqb m x); lia.
+  - destruct (msg_eqb m x); lia.
+Qed.
+
+Lemma count_for_dest : forall m l, count m (for_dest (dest m) l) = count m l.
+Proof.
+  intros m l. unfold for_dest. induction l as [|x r IH]; cbn [filter count]; [reflexivity|].
+  destruct (N.eqb (dest x) (dest m)) eqn:E; cbn [count]; rewrite IH; [reflexivity|].
+  destruct (msg_eqb m x) eqn:E2; [|reflexivity].
+  apply msg_eqb_eq in E2. subst x. rewrite N.eqb_refl in E. discriminate.
+Qed.
+
+(* the messages owed to the well-formed deposits are in the groups with their multiplicities *)
+Lemma each_its_own_message : forall p es g m,
+  run p es = Done g ->
+  (count m (filter_map (owed p) (flat es)) <= count m (get (dest m) g))%nat.
+Proof.
+  intros p es g m H. rewrite <- count_for_dest.
+  exact (Subseq_count m _ _ (neighbours_survive p es g (dest m) H)).
+Qed.
+
 Lemma spec_ok_model : forall p es, spec_ok p es false (run p es) = true.
 Proof.
   intros p es. unfold spec_ok. cbn [negb andb].
   destruct (run_total p es) as [g Hg]. rewrite Hg.
-  apply forallb_forall. intros m Hm. apply mem_In.
-  apply (Subseq_In _ _ m (neighbours_survive p es g (dest m) Hg)).
-  unfold healthy, for_dest. apply filter_In. split; [assumption | apply N.eqb_refl].
+  apply forallb_forall. intros m Hm. apply Nat.leb_le.
+  exact (each_its_own_message p es g m Hg).
+Qed.
+
+Lemma owed_good : forall p m st, (uses_status p = true -> st = StNew) -> owed p (Good m, st) = Some m.
+Proof.
+  intros p m st Hst. unfold owed, emits. cbn [fst snd handle].
+  destruct (uses_status p); [rewrite Hst|]; reflexivity.
 Qed.
 
 Lemma spec_ok_sound : forall p es crashed r,
   spec_ok p es crashed r = true ->
   crashed = false /\
   forall m st, In (Good m, st) (flat es) -> (uses_status p = true -> st = StNew) ->
-    exists g, r = Done g /\ In m (get (dest m) g).
+    exists g, r = Done g /\ In m (get (dest m) g) /\
+      (count m (filter_map (owed p) (flat es)) <= count m (get (dest m) g))%nat.
 Proof.
   intros p es crashed r H. unfold spec_ok in H. apply andb_true_iff in H. destruct H as [Hc Hall].
   split; [now destruct crashed|].
   intros m st Hin Hst.
   assert (Hm : In m (filter_map (owed p) (flat es))).
-  { apply (In_filter_map _ _ (Good m, st)); [assumption|].
-    unfold owed, emits. cbn [fst snd handle]. destruct (uses_status p); [rewrite Hst|]; reflexivity. }
+  { apply (In_filter_map _ _ (Good m, st)); [assumption | now apply owed_good]. }
   rewrite forallb_forall in Hall. specialize (Hall m Hm).
-  destruct r as [g|]; [|discriminate]. exists g. split; [reflexivity | now apply mem_In].
+  destruct r as [g|]; [|discriminate]. exists g. apply Nat.leb_le in Hall.
+  split; [reflexivity|]. split; [|exact Hall].
+  apply count_In. apply count_In in Hm. lia.
 Qed.
 
 (* ---- the tree before the repairs --------------------------------------------------------------- *)
 
-Definition w_good1 : deposit * status := (Good (2, 1), StNew).
+Definition w_good1 : deposit * status := (Good (2, (1, 1)), StNew).
 Definition w_bad : deposit * status := (Bad Err, StNew).
-Definition w_good3 : deposit * status := (Good (2, 3), StNew).
+Definition w_good3 : deposit * status := (Good (2, (3, 1)), StNew).
 
 Lemma retry_v1_old_refuted : exists es m st,
   In (Good m, st) (flat es) /\ st = StNew /\
   exists g, run_old EvmRetryV1 es = Done g /\ ~ In m (get (dest m) g).
 Proof.
-  exists [RDeps [w_good1; w_bad; w_good3]], (2, 3), StNew.
+  exists [RDeps [w_good1; w_bad; w_good3]], (2, (3, 1)), StNew.
   split; [cbn; auto|]. split; [reflexivity|].
   eexists. split; [vm_compute; reflexivity|].
   cbn. intros [H|[]]. discriminate.
@@ -226,7 +273,7 @@ Qed.
 Lemma sub_retry_old_refuted_err : exists es m st,
   In (Good m, st) (flat es) /\ run_old SubRetry es = Failed.
 Proof.
-  exists [RDeps [w_good1; w_bad; w_good3]], (2, 1), StNew.
+  exists [RDeps [w_good1; w_bad; w_good3]], (2, (1, 1)), StNew.
   split; [cbn; auto | vm_compute; reflexivity].
 Qed.
 
@@ -234,7 +281,7 @@ Lemma sub_retry_old_refuted_panic : exists es m st,
   In (Good m, st) (flat es) /\
   exists g, run_old SubRetry es = Done g /\ ~ In m (get (dest m) g).
 Proof.
-  exists [RDeps [w_good1; (Bad Panic, StNew); w_good3]], (2, 3), StNew.
+  exists [RDeps [w_good1; (Bad Panic, StNew); w_good3]], (2, (3, 1)), StNew.
   split; [cbn; auto|].
   eexists. split; [vm_compute; reflexivity|].
   cbn. intros [H|[]]. discriminate.
